@@ -332,6 +332,12 @@ package allocator
 //@     r != nil && sameSlice(r.ips, ips) && r.sharing == sharingKey && r.backend == backendKey
 //@     && len(r.ports) == len(ports) && (forall k int :: 0 <= k && k < len(ports) ==> r.ports[k] == ports[k])
 
+// AssignRefused: the only reasons Assign may refuse (C07: it refuses for nothing else).
+//@ pred AssignRefused(a *Allocator, svcKey string, svc *v1.Service, ips []net.IP, ports []Port, sharing string, backend string) :=
+//@     (forall n string :: n in a.pools.ByName ==> !AllInPool(a.pools.ByName[n], ips))
+//@     || (exists n string :: n in a.pools.ByName && AllInPool(a.pools.ByName[n], ips) && !PoolAdmits(a.pools.ByName[n], svc))
+//@     || len(ips) > 2 || (len(ips) == 2 && net.is4(ips[0]) == net.is4(ips[1]))
+//@     || (exists k int :: 0 <= k && k < len(ips) && !Sharable(a, svcKey, net.ipstr(ips[k]), ports, sharing, backend))
 //@ func (*Allocator).Assign
 //@   modifies map[string]*alloc, map[Port]string, map[string]bool, map[string]int, map[string]PoolCounters, fresh *ipaddr.Prefix, fresh *ipaddr.Cursor, fresh *ipaddr.Position, fresh []ipaddr.Prefix, gint("cursor.pos"), fresh []string, fresh []interface{}, fresh *alloc, fresh []Port, fresh *key
 //@   requires [inv] Inv(a)
@@ -346,6 +352,8 @@ package allocator
 //@   ensures [pool] result == nil ==> (a.allocated[svcKey].pool in a.pools.ByName) && AllInPool(a.pools.ByName[a.allocated[svcKey].pool], ips)
 //@       && PoolAdmits(a.pools.ByName[a.allocated[svcKey].pool], svc)
 //@   ensures [families] result == nil ==> len(ips) <= 2 && (len(ips) == 2 ==> net.is4(ips[0]) != net.is4(ips[1]))
+//@   ensures [complete] result != nil ==> old(AssignRefused(a, svcKey, svc, ips, ports, sharingKey, backendKey))
+//@   readonly when result != nil
 //@   ensures [poolsSame] a.pools == old(a.pools) && (forall n string :: (n in a.pools.ByName) == old(n in a.pools.ByName) && a.pools.ByName[n] == old(a.pools.ByName[n]))
 //@   loop 1 invariant sk != nil && fresh(sk) && sk.sharing == sharingKey && sk.backend == backendKey && pool != nil
 //@   loop 1 invariant forall k int :: 0 <= k && k < iter ==> Sharable(a, svcKey, net.ipstr(ips[k]), ports, sharingKey, backendKey)
@@ -435,11 +443,11 @@ package allocator
 //@   modifies fresh []net.IP, fresh []interface{}
 
 // FreeIn: the pool has an address of that family usable by svc.
-//@ pred FreeIn(a *Allocator, p *config.Pool, v4 bool, svc string, ports []Port, sharing string, backend string) :=
+//@ opaque pred FreeIn(a *Allocator, p *config.Pool, v4 bool, svc string, ports []Port, sharing string, backend string) :=
 //@     exists c int, n int :: 0 <= c && c < len(p.CIDR) && net.is4(p.CIDR[c].IP) == v4 && 0 <= n && n < ipaddr.prefixSize(*p.CIDR[c])
 //@         && Usable(a, p.AvoidBuggyIPs, svc, ports, sharing, backend, ipaddr.nthAddr(*p.CIDR[c], n))
 // FoundIn: ip is a usable address of family v4 inside one CIDR of the pool.
-//@ pred FoundIn(a *Allocator, p *config.Pool, v4 bool, svc string, ports []Port, sharing string, backend string, ip net.IP) :=
+//@ opaque pred FoundIn(a *Allocator, p *config.Pool, v4 bool, svc string, ports []Port, sharing string, backend string, ip net.IP) :=
 //@     Usable(a, p.AvoidBuggyIPs, svc, ports, sharing, backend, ip) &&
 //@     (exists c int :: 0 <= c && c < len(p.CIDR) && net.is4(p.CIDR[c].IP) == v4 && net.NetContains(*p.CIDR[c], ip))
 
@@ -479,14 +487,43 @@ package allocator
 //@     (r.IPV6 != nil ==> FoundIn(a, p, false, svc, ports, sharing, backend, r.IPV6))
 //@ pred PoolListOK(pools []*config.Pool) := forall i int :: 0 <= i && i < len(pools) ==> PoolCIDRsOK(pools[i])
 
+// ---- C02/C07: the pool list is tried in order ----
+// Prim4: the Service's primary family is IPv4 (IPv6 only when it lists IPv6 first).
+//@ pred Prim4(svc *v1.Service) := !(len(svc.Spec.IPFamilies) > 0 && svc.Spec.IPFamilies[0] == v1.IPv6Protocol)
+// Full: the search result needs no fallback (the single requested family, or both families).
+//@ pred Full(r *Allocation, fam ipfamily.Family) := FamIP(r, fam) != nil || (r.IPV4 != nil && r.IPV6 != nil)
+// NoneBefore: no pool before index i has a usable address of that family.
+//@ pred NoneBefore(a *Allocator, pools []*config.Pool, i int, v4 bool, svc string, ports []Port, sharing string, backend string) :=
+//@     forall j int :: 0 <= j && j < i ==> !FreeIn(a, pools[j], v4, svc, ports, sharing, backend)
+// FirstChoice: pools[i] is the pool the ordered search must pick: the first pool that satisfies the request fully;
+// failing any such pool (PreferDualStack fallback) the first pool with a primary-family address, and failing that
+// the first pool with a secondary-family address.
+//@ opaque pred FirstChoice(a *Allocator, pools []*config.Pool, i int, full bool, hasPrim bool, fam ipfamily.Family, p4 bool, svc string, ports []Port, sharing string, backend string) :=
+//@     (forall j int :: 0 <= j && j < i ==> !CanSatisfyFull(a, pools[j], fam, svc, ports, sharing, backend))
+//@     && (!full ==>
+//@         (forall j int :: 0 <= j && j < len(pools) ==> !CanSatisfyFull(a, pools[j], fam, svc, ports, sharing, backend))
+//@         && ite(hasPrim,
+//@                NoneBefore(a, pools, i, p4, svc, ports, sharing, backend),
+//@                NoneBefore(a, pools, len(pools), p4, svc, ports, sharing, backend) && NoneBefore(a, pools, i, !p4, svc, ports, sharing, backend)))
 //@ func (*Allocator).findBestPoolForService
 //@   requires a != nil && svc != nil && PoolListOK(pools)
 //@   ensures [sound] result1 == nil ==> result0 != nil && fresh(result0) && Satisfies(result0, serviceIPFamily, ipPolicyForServiceSpec(svc))
 //@       && (exists i int :: 0 <= i && i < len(pools) && FromPool(a, result0, pools[i], svcKey, ports, sharingKey, backendKey))
 //@   ensures [complete] result1 != nil ==> result0 == nil && (forall i int :: 0 <= i && i < len(pools) ==>
 //@       !CanSatisfy(a, pools[i], serviceIPFamily, ipPolicyForServiceSpec(svc), svcKey, ports, sharingKey, backendKey))
+//@   ensures [first] result1 == nil ==> (exists i int :: 0 <= i && i < len(pools) && FromPool(a, result0, pools[i], svcKey, ports, sharingKey, backendKey)
+//@       && FirstChoice(a, pools, i, Full(result0, serviceIPFamily), ite(Prim4(svc), result0.IPV4, result0.IPV6) != nil, serviceIPFamily, Prim4(svc), svcKey, ports, sharingKey, backendKey))
 //@   modifies fresh *Allocation, fresh *key, fresh []ipaddr.Prefix, fresh *ipaddr.Prefix, fresh *ipaddr.Cursor, fresh *ipaddr.Position, fresh []string, fresh []interface{}, gint("cursor.pos")
 //@   loop 1 invariant serviceIPFamilyPolicy == ipPolicyForServiceSpec(svc) && svc == old(svc)
+//@   loop 1 invariant (primaryIPFamily == ipfamily.IPv4) == Prim4(svc)
+//@   loop 1 invariant primaryAllocationCandidate != nil ==> (exists i int :: 0 <= i && i < iter && FromPool(a, primaryAllocationCandidate, pools[i], svcKey, ports, sharingKey, backendKey)
+//@       && NoneBefore(a, pools, i, Prim4(svc), svcKey, ports, sharingKey, backendKey))
+//@   loop 1 invariant secondaryAllocationCandidate != nil ==> (exists i int :: 0 <= i && i < iter && FromPool(a, secondaryAllocationCandidate, pools[i], svcKey, ports, sharingKey, backendKey)
+//@       && NoneBefore(a, pools, i, !Prim4(svc), svcKey, ports, sharingKey, backendKey))
+//@   loop 1 invariant isPreferDualStackSpec(serviceIPFamilyPolicy, serviceIPFamily) && primaryAllocationCandidate == nil ==> NoneBefore(a, pools, iter, Prim4(svc), svcKey, ports, sharingKey, backendKey)
+//@   loop 1 invariant isPreferDualStackSpec(serviceIPFamilyPolicy, serviceIPFamily) && secondaryAllocationCandidate == nil ==> NoneBefore(a, pools, iter, !Prim4(svc), svcKey, ports, sharingKey, backendKey)
+//@   loop 1 invariant primaryAllocationCandidate != nil ==> !Full(primaryAllocationCandidate, serviceIPFamily)
+//@   loop 1 invariant secondaryAllocationCandidate != nil ==> !Full(secondaryAllocationCandidate, serviceIPFamily)
 //@   loop 1 invariant (primaryIPFamily == ipfamily.IPv4 && secondaryIPFamily == ipfamily.IPv6) || (primaryIPFamily == ipfamily.IPv6 && secondaryIPFamily == ipfamily.IPv4)
 //@   loop 1 invariant forall i int :: 0 <= i && i < iter ==> !CanSatisfyFull(a, pools[i], serviceIPFamily, svcKey, ports, sharingKey, backendKey)
 //@   loop 1 invariant primaryAllocationCandidate != nil ==> fresh(primaryAllocationCandidate) && FamIP(primaryAllocationCandidate, primaryIPFamily) != nil
@@ -514,6 +551,14 @@ package allocator
 //@     && len(ips) >= 1 && len(ips) <= 2 && (len(ips) == 2 ==> net.is4(ips[0]) != net.is4(ips[1]))
 //@ pred PoolsSame(a *Allocator) := true
 
+// FamPolicyOK: what the API server guarantees of a Service's families: two cluster-IP families only with a dual-stack policy.
+//@ pred FamPolicyOK(fam ipfamily.Family, pol v1.IPFamilyPolicy) := fam == ipfamily.IPv4 || fam == ipfamily.IPv6 ||
+//@     (fam == ipfamily.DualStack && (pol == v1.IPFamilyPolicyRequireDualStack || pol == v1.IPFamilyPolicyPreferDualStack))
+// PoolsDisjoint: no address lies in two configured pools (what the configuration parser enforces, see C08).
+//@ opaque pred PoolsDisjoint(pools map[string]*config.Pool) := forall n string, m string, x net.IP :: n in pools && m in pools && n != m ==> !(InCIDRs(pools[n], x) && InCIDRs(pools[m], x))
+// Listed: every pool of the candidate list is a configured pool that admits the Service.
+//@ opaque pred Listed(a *Allocator, svc *v1.Service, pools []*config.Pool) := forall i int :: 0 <= i && i < len(pools) ==>
+//@     pools[i] != nil && (pools[i].Name in a.pools.ByName) && a.pools.ByName[pools[i].Name] == pools[i] && PoolAdmits(pools[i], svc)
 //@ func (*Allocator).allocateFromPools
 //@   modifies map[string]*alloc, map[Port]string, map[string]bool, map[string]int, map[string]PoolCounters, fresh *ipaddr.Prefix, fresh *ipaddr.Cursor, fresh *ipaddr.Position, fresh []ipaddr.Prefix, gint("cursor.pos"), fresh []string, fresh []interface{}, fresh *alloc, fresh []Port, fresh *key, fresh *Allocation, fresh []net.IP
 //@   requires Inv(a) && a.countersChangedCallback != nil && svc != nil && PoolsKeyedOK(a.pools.ByName) && PortsOK(ports) && PoolListOK(pools)
@@ -522,7 +567,32 @@ package allocator
 //@   ensures [unchangedOnError] result1 != nil ==> result0 == nil && (forall s string :: a.allocated[s] == old(a.allocated[s]))
 //@   ensures [assigned] result1 == nil ==> AssignedOK(a, svcKey, svc, result0, ports, sharingKey, backendKey)
 //@   ensures [fromList] result1 == nil ==> (exists i int :: 0 <= i && i < len(pools) && (forall k int :: 0 <= k && k < len(result0) ==> InCIDRs(pools[i], result0[k])))
+//@   ensures [first] result1 == nil ==> (let full := !(serviceIPFamily == ipfamily.DualStack && len(result0) == 1) in let prim := (net.is4(result0[0]) == Prim4(svc)) in
+//@       (exists i int :: 0 <= i && i < len(pools) && (forall k int :: 0 <= k && k < len(result0) ==> InCIDRs(pools[i], result0[k]))
+//@       && old(FirstChoice(a, pools, i, full, prim, serviceIPFamily, Prim4(svc), svcKey, ports, sharingKey, backendKey))))
 //@   ensures [poolsSame] a.pools == old(a.pools) && (forall n string :: (n in a.pools.ByName) == old(n in a.pools.ByName) && a.pools.ByName[n] == old(a.pools.ByName[n]))
+//@   ensures [complete] result1 != nil && old(PoolsDisjoint(a.pools.ByName)) && old(Listed(a, svc, pools)) && FamPolicyOK(serviceIPFamily, old(ipPolicyForServiceSpec(svc))) ==>
+//@       (forall i int :: 0 <= i && i < len(pools) ==> !old(CanSatisfy(a, pools[i], serviceIPFamily, ipPolicyForServiceSpec(svc), svcKey, ports, sharingKey, backendKey)))
+//@   readonly when result1 != nil
+//@   assert before Assign: [allIn] exists i int :: 0 <= i && i < len(pools) && AllInPool(pools[i], ips)
+//@   assert before Assign: [shar] forall k int :: 0 <= k && k < len(ips) ==> Sharable(a, svcKey, net.ipstr(ips[k]), ports, sharingKey, backendKey)
+//@   assert before Assign: [fam] len(ips) >= 1 && len(ips) <= 2 && (len(ips) == 2 ==> net.is4(ips[0]) != net.is4(ips[1]))
+//@   assert before Assign: [uniq] PoolsDisjoint(a.pools.ByName) && Listed(a, svc, pools) ==>
+//@       (forall n string :: n in a.pools.ByName && AllInPool(a.pools.ByName[n], ips) ==> PoolAdmits(a.pools.ByName[n], svc))
+//@   assert before Assign: [noRefuse] PoolsDisjoint(a.pools.ByName) && Listed(a, svc, pools) ==> !AssignRefused(a, svcKey, svc, ips, ports, sharingKey, backendKey)
+//@   assert before errors.New: [unreach] old(PoolsDisjoint(a.pools.ByName)) && old(Listed(a, svc, pools)) && FamPolicyOK(serviceIPFamily, old(ipPolicyForServiceSpec(svc))) ==> false
+//@   assert after selectIPsForFamilyAndPolicy: [selOk] FamPolicyOK(serviceIPFamily, ipPolicyForServiceSpec(svc)) ==> ret1 == nil
+//@   assert after Assign: [assignOk] old(PoolsDisjoint(a.pools.ByName)) && old(Listed(a, svc, pools)) ==> ret == nil
+//@   assert after selectIPsForFamilyAndPolicy: [is4] (poolIps.IPV4 != nil ==> net.is4(poolIps.IPV4)) && (poolIps.IPV6 != nil ==> !net.is4(poolIps.IPV6))
+//@   assert before Assign: [shape] (Full(poolIps, serviceIPFamily) == !(serviceIPFamily == ipfamily.DualStack && len(ips) == 1))
+//@       && (!Full(poolIps, serviceIPFamily) ==> ((ite(Prim4(svc), poolIps.IPV4, poolIps.IPV6) != nil) == (net.is4(ips[0]) == Prim4(svc))))
+//@   assert before Assign: [first0] let full := !(serviceIPFamily == ipfamily.DualStack && len(ips) == 1) in let prim := (net.is4(ips[0]) == Prim4(svc)) in
+//@       (exists i int :: 0 <= i && i < len(pools) && FromPool(a, poolIps, pools[i], svcKey, ports, sharingKey, backendKey)
+//@       && old(FirstChoice(a, pools, i, full, prim, serviceIPFamily, Prim4(svc), svcKey, ports, sharingKey, backendKey)))
+//@   assert before Assign: [inC] forall i int, k int :: 0 <= i && i < len(pools) && FromPool(a, poolIps, pools[i], svcKey, ports, sharingKey, backendKey) && 0 <= k && k < len(ips) ==> InCIDRs(pools[i], ips[k])
+//@   assert before Assign: [first1] let full := !(serviceIPFamily == ipfamily.DualStack && len(ips) == 1) in let prim := (net.is4(ips[0]) == Prim4(svc)) in
+//@       (exists i int :: 0 <= i && i < len(pools) && (forall k int :: 0 <= k && k < len(ips) ==> InCIDRs(pools[i], ips[k]))
+//@       && old(FirstChoice(a, pools, i, full, prim, serviceIPFamily, Prim4(svc), svcKey, ports, sharingKey, backendKey)))
 
 // ---- pinned pools: sorted by ascending priority number, 0 (no priority) last ----
 // PrioBefore(p, q): p must come before q: p has a priority and q has none or a larger number.
@@ -558,10 +628,22 @@ package allocator
 //@ opaque pred Pinned(a *Allocator, svc *v1.Service, p *config.Pool) :=
 //@     Pinnable(p) && (p.Name in a.pools.ByName) && a.pools.ByName[p.Name] == p && p.AutoAssign && PoolAdmits(p, svc)
 
+// IndexedFor: the pool name is listed for the Service's namespace or in the service-selector index.
+//@ pred IndexedNS(a *Allocator, svc *v1.Service, k int) := 0 <= k && k < len(a.pools.ByNamespace[svc.Namespace])
+//@ pred IndexedSel(a *Allocator, k int) := 0 <= k && k < len(a.pools.ByServiceSelector)
+// Wanted(a, svc, n): the configured pool called n is auto-assignable and admits svc.
+//@ pred Wanted(a *Allocator, svc *v1.Service, n string) := (n in a.pools.ByName) && a.pools.ByName[n].AutoAssign && PoolAdmits(a.pools.ByName[n], svc)
+// PinnedFor: q is one of the pools pinned to svc: indexed, configured, auto-assignable, admitting.
+//@ pred PinnedFor(a *Allocator, svc *v1.Service, q *config.Pool) := q != nil && Wanted(a, svc, q.Name) && a.pools.ByName[q.Name] == q &&
+//@     ((exists k int :: IndexedNS(a, svc, k) && a.pools.ByNamespace[svc.Namespace][k] == q.Name) || (exists k int :: IndexedSel(a, k) && a.pools.ByServiceSelector[k] == q.Name))
 //@ func (*Allocator).pinnedPoolsForService
 //@   requires a != nil && PoolsIndexOK(a.pools)
 //@   ensures svc == nil ==> result == nil
 //@   ensures [pinned] forall i int :: 0 <= i && i < len(result) ==> Pinned(a, svc, result[i])
+//@   ensures [complete] svc != nil ==> (forall q *config.Pool :: PinnedFor(a, svc, q) ==> (q in result))
+//@   loop 1 invariant forall k int :: 0 <= k && k < iter && Wanted(a, svc, a.pools.ByNamespace[svc.Namespace][k]) ==> (a.pools.ByName[a.pools.ByNamespace[svc.Namespace][k]] in pools)
+//@   loop 2 invariant forall k int :: IndexedNS(a, svc, k) && Wanted(a, svc, a.pools.ByNamespace[svc.Namespace][k]) ==> (a.pools.ByName[a.pools.ByNamespace[svc.Namespace][k]] in pools)
+//@   loop 2 invariant forall k int :: 0 <= k && k < iter && Wanted(a, svc, a.pools.ByServiceSelector[k]) ==> (a.pools.ByName[a.pools.ByServiceSelector[k]] in pools)
 //@   ensures [sorted] forall x int, y int :: 0 <= x && x < y && y < len(result) ==> !PrioBefore(result[y], result[x])
 //@   ensures result == nil || fresh(result)
 //@   modifies fresh []*config.Pool
@@ -582,6 +664,10 @@ package allocator
 //@ pred AutoListed(a *Allocator, ips []net.IP) := exists n string :: (n in a.pools.ByName) && a.pools.ByName[n].AutoAssign
 //@     && (forall k int :: 0 <= k && k < len(ips) ==> InCIDRs(a.pools.ByName[n], ips[k]))
 
+// Unpinned: an auto-assign pool without service allocation (usable by every Service).
+//@ pred Unpinned(p *config.Pool) := p != nil && p.AutoAssign && p.ServiceAllocations == nil
+//@ pred AutoUnpinned(a *Allocator, ips []net.IP) := exists n string :: (n in a.pools.ByName) && Unpinned(a.pools.ByName[n])
+//@     && (forall k int :: 0 <= k && k < len(ips) ==> InCIDRs(a.pools.ByName[n], ips[k]))
 //@ func (*Allocator).Allocate
 //@   modifies map[string]*alloc, map[Port]string, map[string]bool, map[string]int, map[string]PoolCounters, fresh *ipaddr.Prefix, fresh *ipaddr.Cursor, fresh *ipaddr.Position, fresh []ipaddr.Prefix, gint("cursor.pos"), fresh []string, fresh []interface{}, fresh *alloc, fresh []Port, fresh *key, fresh *Allocation, fresh []net.IP, fresh []*config.Pool
 //@   requires AllocatorOK(a) && svc != nil && PortsOK(ports)
@@ -592,8 +678,34 @@ package allocator
 //@   ensures [keeps] result1 == nil && old(a.allocated[svcKey]) != nil ==> sameSlice(result0, old(a.allocated[svcKey].ips))
 //@   ensures [auto] result1 == nil && old(a.allocated[svcKey]) == nil ==> AutoListed(a, result0)
 //@   ensures [poolsSame] a.pools == old(a.pools) && (forall n string :: (n in a.pools.ByName) == old(n in a.pools.ByName) && a.pools.ByName[n] == old(a.pools.ByName[n]))
+//@   ensures [order] result1 == nil && old(a.allocated[svcKey]) == nil ==>
+//@       (exists p *config.Pool :: Pinned(a, svc, p) && (forall k int :: 0 <= k && k < len(result0) ==> InCIDRs(p, result0[k]))
+//@           && (forall q *config.Pool :: PinnedFor(a, svc, q) && PrioBefore(q, p) ==> !old(CanSatisfyFull(a, q, serviceIPFamily, svcKey, ports, sharingKey, backendKey))))
+//@       || (AutoUnpinned(a, result0) && (old(PoolsDisjoint(a.pools.ByName)) && FamPolicyOK(serviceIPFamily, old(ipPolicyForServiceSpec(svc))) ==>
+//@           (forall q *config.Pool :: PinnedFor(a, svc, q) ==> !old(CanSatisfy(a, q, serviceIPFamily, ipPolicyForServiceSpec(svc), svcKey, ports, sharingKey, backendKey)))))
+//@   ensures [complete] result1 != nil && old(a.allocated[svcKey]) == nil && old(PoolsDisjoint(a.pools.ByName)) && FamPolicyOK(serviceIPFamily, old(ipPolicyForServiceSpec(svc))) ==>
+//@       (forall q *config.Pool :: PinnedFor(a, svc, q) ==> !old(CanSatisfy(a, q, serviceIPFamily, ipPolicyForServiceSpec(svc), svcKey, ports, sharingKey, backendKey)))
+//@       && (forall n string :: (n in a.pools.ByName) && Unpinned(a.pools.ByName[n]) ==> !old(CanSatisfy(a, a.pools.ByName[n], serviceIPFamily, ipPolicyForServiceSpec(svc), svcKey, ports, sharingKey, backendKey)))
+//@   assert before allocateFromPools#1: [listed1] Listed(a, svc, pinnedPools)
+//@   assert after allocateFromPools#1: [w1] ret1 == nil ==> (exists i int :: 0 <= i && i < len(pinnedPools) && (forall k int :: 0 <= k && k < len(ret0) ==> InCIDRs(pinnedPools[i], ret0[k]))
+//@       && (forall j int :: 0 <= j && j < i ==> (let q := pinnedPools[j] in !old(CanSatisfyFull(a, q, serviceIPFamily, svcKey, ports, sharingKey, backendKey)))))
+//@   assert after allocateFromPools#1: [w2] ret1 == nil ==> (exists i int :: 0 <= i && i < len(pinnedPools) && (forall k int :: 0 <= k && k < len(ret0) ==> InCIDRs(pinnedPools[i], ret0[k]))
+//@       && Pinned(a, svc, pinnedPools[i]) && (pinnedPools[i].Name in a.pools.ByName) && a.pools.ByName[pinnedPools[i].Name] == pinnedPools[i] && pinnedPools[i].AutoAssign
+//@       && (forall q *config.Pool :: PinnedFor(a, svc, q) && PrioBefore(q, pinnedPools[i]) ==> !old(CanSatisfyFull(a, q, serviceIPFamily, svcKey, ports, sharingKey, backendKey))))
+//@   assert after allocateFromPools#1: [pinnedCant] ret1 != nil && old(PoolsDisjoint(a.pools.ByName)) && FamPolicyOK(serviceIPFamily, old(ipPolicyForServiceSpec(svc))) ==>
+//@       (forall q *config.Pool :: PinnedFor(a, svc, q) ==> !old(CanSatisfy(a, q, serviceIPFamily, ipPolicyForServiceSpec(svc), svcKey, ports, sharingKey, backendKey)))
+//@   assert before allocateFromPools#2: [listed2] Listed(a, svc, allPools)
+//@   assert before allocateFromPools#2: [all2] forall n string :: (n in a.pools.ByName) && Unpinned(a.pools.ByName[n]) ==> (a.pools.ByName[n] in allPools)
+//@   assert before allocateFromPools#2: [pd2] old(PoolsDisjoint(a.pools.ByName)) ==> PoolsDisjoint(a.pools.ByName)
+//@   assert before allocateFromPools#2: [cs2] forall i int :: 0 <= i && i < len(allPools) ==> (let q := allPools[i] in
+//@       CanSatisfy(a, q, serviceIPFamily, ipPolicyForServiceSpec(svc), svcKey, ports, sharingKey, backendKey) == old(CanSatisfy(a, q, serviceIPFamily, ipPolicyForServiceSpec(svc), svcKey, ports, sharingKey, backendKey)))
+//@   assert after allocateFromPools#2: [each2] ret1 != nil && old(PoolsDisjoint(a.pools.ByName)) && FamPolicyOK(serviceIPFamily, old(ipPolicyForServiceSpec(svc))) ==>
+//@       (forall i int :: 0 <= i && i < len(allPools) ==> (let q := allPools[i] in !old(CanSatisfy(a, q, serviceIPFamily, ipPolicyForServiceSpec(svc), svcKey, ports, sharingKey, backendKey))))
+//@   assert after allocateFromPools#2: [unpinnedCant] ret1 != nil && old(PoolsDisjoint(a.pools.ByName)) && FamPolicyOK(serviceIPFamily, old(ipPolicyForServiceSpec(svc))) ==>
+//@       (forall n string :: (n in a.pools.ByName) && Unpinned(a.pools.ByName[n]) ==> !old(CanSatisfy(a, a.pools.ByName[n], serviceIPFamily, ipPolicyForServiceSpec(svc), svcKey, ports, sharingKey, backendKey)))
 //@   loop 1 invariant (allPools == nil || fresh(allPools)) && (forall i int :: 0 <= i && i < len(allPools) ==>
-//@       allPools[i] != nil && allPools[i].AutoAssign && (allPools[i].Name in a.pools.ByName) && a.pools.ByName[allPools[i].Name] == allPools[i] && PoolCIDRsOK(allPools[i]))
+//@       allPools[i] != nil && allPools[i].AutoAssign && allPools[i].ServiceAllocations == nil && (allPools[i].Name in a.pools.ByName) && a.pools.ByName[allPools[i].Name] == allPools[i] && PoolCIDRsOK(allPools[i]))
+//@   loop 1 invariant forall n string :: (n in visited) && Unpinned(a.pools.ByName[n]) ==> (a.pools.ByName[n] in allPools)
 //@   loop 1 invariant Inv(a) && (forall s string :: a.allocated[s] == old(a.allocated[s]))
 //@   loop 1 invariant forall n string :: n in visited ==> n in a.pools.ByName
 
@@ -610,6 +722,22 @@ package allocator
 //@   ensures [assigned] result1 == nil ==> AssignedOK(a, svcKey, svc, result0, ports, sharingKey, backendKey)
 //@   ensures [keeps] result1 == nil && old(a.allocated[svcKey]) != nil ==> sameSlice(result0, old(a.allocated[svcKey].ips))
 //@   ensures [fromPool] result1 == nil && old(a.allocated[svcKey]) == nil ==> InNamedPool(a, poolName, result0)
+//@   ensures [complete] result1 != nil && old(a.allocated[svcKey]) == nil && old(poolName in a.pools.ByName) && old(PoolsDisjoint(a.pools.ByName))
+//@       && FamPolicyOK(serviceIPFamily, old(ipPolicyForServiceSpec(svc))) && old(PoolAdmits(a.pools.ByName[poolName], svc)) ==>
+//@       !old(CanSatisfy(a, a.pools.ByName[poolName], serviceIPFamily, ipPolicyForServiceSpec(svc), svcKey, ports, sharingKey, backendKey))
+//@   readonly when result1 != nil
+//@   assert before Assign#2: [is4] (poolIps.IPV4 != nil ==> net.is4(poolIps.IPV4)) && (poolIps.IPV6 != nil ==> !net.is4(poolIps.IPV6))
+//@   assert before Assign#2: [nonnil] forall k int :: 0 <= k && k < len(ips) && ips[k] != nil ==> ips[k] == poolIps.IPV4 || ips[k] == poolIps.IPV6
+//@   assert before Assign#2: [allIn] (forall k int :: 0 <= k && k < len(ips) ==> ips[k] != nil) ==> AllInPool(pool, ips)
+//@   assert before Assign#2: [shar] forall k int :: 0 <= k && k < len(ips) && ips[k] != nil ==> Sharable(a, svcKey, net.ipstr(ips[k]), ports, sharingKey, backendKey)
+//@   assert before Assign#2: [fam] len(ips) >= 1 && len(ips) <= 2 && (len(ips) == 2 ==> net.is4(ips[0]) != net.is4(ips[1]))
+//@   assert before Assign#2: [uniq] PoolsDisjoint(a.pools.ByName) && PoolAdmits(pool, svc) && (forall k int :: 0 <= k && k < len(ips) ==> ips[k] != nil) ==>
+//@       (forall n string :: n in a.pools.ByName && AllInPool(a.pools.ByName[n], ips) ==> PoolAdmits(a.pools.ByName[n], svc))
+//@   assert before Assign#2: [noRefuse] PoolsDisjoint(a.pools.ByName) && PoolAdmits(pool, svc) && (forall k int :: 0 <= k && k < len(ips) ==> ips[k] != nil) ==>
+//@       !AssignRefused(a, svcKey, svc, ips, ports, sharingKey, backendKey)
+//@   assert before Assign#2: [nilCase] (exists k int :: 0 <= k && k < len(ips) && ips[k] == nil) && FamPolicyOK(serviceIPFamily, ipPolicyForServiceSpec(svc)) ==>
+//@       !CanSatisfy(a, pool, serviceIPFamily, ipPolicyForServiceSpec(svc), svcKey, ports, sharingKey, backendKey)
+//@   assert after Assign#2: [assignOk] old(PoolsDisjoint(a.pools.ByName)) && old(PoolAdmits(a.pools.ByName[poolName], svc)) && (forall k int :: 0 <= k && k < len(ips) ==> ips[k] != nil) ==> ret == nil
 //@   ensures [poolsSame] a.pools == old(a.pools) && (forall n string :: (n in a.pools.ByName) == old(n in a.pools.ByName) && a.pools.ByName[n] == old(a.pools.ByName[n]))
 
 //@ func (*Allocator).AllocateFromPoolForAdditionalFamily
